@@ -26,6 +26,11 @@ class Refuse(Exception):
     pass
 
 
+def _san(t):
+    """a refusal reason inside a Coq comment: no comment brackets, no quotes (a quote starts a string even inside a comment)"""
+    return t.replace("*", "x").replace("(", "[").replace(")", "]").replace('"', "'")
+
+
 class Tr:
     def __init__(self, fn):
         self.fn = fn
@@ -146,7 +151,7 @@ def main():
         text = HEADER + Tr(fns[FUNC]).run()
     except Refuse as r:
         refused = str(r)
-        text = HEADER + (f"(* REFUSED by the translator: {refused[:100]} - the hand model stands in *)\nFrom TF Require Import Index DB.\n"
+        text = HEADER + (f"(* REFUSED by the translator: {_san(refused[:100])} - the hand model stands in *)\nFrom TF Require Import Index DB.\n"
                          f"Definition {FUNC} (fuel : nat) (q : query) : bool := DB.index_is_exact q.\n")
     try:
         old = open(out_path).read()
